@@ -341,6 +341,8 @@ Fixpoint quiet (e : expr) : bool :=
          end) cs
   end.
 
+(* a starred / ** operand is unpacked in place, right after it has been evaluated: a second,
+   never quiet, never named entry *)
 Record cinfo := mkinfo { ci_quiet : bool; ci_nohoist : bool; ci_named : bool }.
 
 Fixpoint order_ok (l : list cinfo) : bool :=
@@ -359,7 +361,8 @@ Fixpoint child_infos (cfg : config) (ens : bool) (parent : tag) (cs : list child
       | None => []
       | Some (c', H, n1) =>
           mkinfo (quiet c') (is_nil H) (ens && negb (is_trivial c') && should_transform cfg parent f (tag_of c'))
-          :: child_infos cfg ens parent rest n1
+          :: (if plain w || match w with WKw _ => true | _ => false end then [] else [mkinfo false true false])
+          ++ child_infos cfg ens parent rest n1
       end
   end.
 
